@@ -46,7 +46,7 @@ COMPONENTS_STUB = ["pristine forked interpreter as the restart reference",
                    "simulated machine for the controller calls",
                    "structural snapshot function"]
 KINDS = ["place", "allocate", "route", "tables", "minimise", "wrapper",
-         "bitfield", "controller", "covering", "misc", "toolbox"]
+         "bitfield", "controller", "covering", "misc", "toolbox", "reuse"]
 PLACERS = ["sa_c", "sa_python", "hilbert", "rcm", "breadth_first",
            "sequential", "rand"]
 
@@ -69,7 +69,7 @@ def plan(tier, prop):
                 "(call kinds and outcomes)",
         "expected_probes": ["probe_" + k for k in KINDS] +
                            ["history_len_ge_6", "probe_raised_same_error",
-                            "argument_snapshots"],
+                            "argument_snapshots", "workspace_reused"],
         "knob_ranges": {"history": "0-12 calls", "kinds": KINDS,
                         "placers": PLACERS},
         "assumptions": [
@@ -159,6 +159,7 @@ class Caller(object):
         # objects the *caller* owns and passes to several calls
         self.tagsets = [set(["t1"]), set(["t1", "t2"]), set(["t3"])]
         self.tagsets_orig = [set(x) for x in self.tagsets]
+        self.workspace = None
 
     def snap(self, args):
         self.snapshots += 1
@@ -352,6 +353,8 @@ class Caller(object):
             return self.call_misc(t)
         if kind == "toolbox":
             return self.call_toolbox(t)
+        if kind == "reuse":
+            return self.call_reuse(t)
         return self.call_controller(t)
 
     def norm(self, r):
@@ -615,6 +618,59 @@ class Caller(object):
                         "minimise_tables[target=dict]", rt.minimise_tables,
                         (tables, tl), {}, [tables, tl]))
         return "toolbox-chain", self.norm(out)
+
+    def call_reuse(self, t):
+        """The caller keeps ONE set of objects (machine, vertices_resources,
+        nets, constraints, net_keys) for the whole process and edits them in
+        place into this call's problem before each call.  In a pristine
+        interpreter the same values sit in objects rig has never seen."""
+        par = self.par
+        machine, g, constraints = self.problem(t)
+        if self.workspace is None:
+            self.workspace = (par.Machine(1, 1), collections.OrderedDict(),
+                              [], [], collections.OrderedDict())
+        else:
+            self.w.probe("workspace_reused")
+        wm, wvr, wnets, wcons, wkeys = self.workspace
+        wm.width, wm.height = machine.width, machine.height
+        for mine, new in ((wm.chip_resources, machine.chip_resources),
+                          (wm.chip_resource_exceptions,
+                           machine.chip_resource_exceptions),
+                          (wvr, g.vertices_resources), (wkeys, g.net_keys)):
+            mine.clear()
+            mine.update(new)
+        for mine, new in ((wm.dead_chips, machine.dead_chips),
+                          (wm.dead_links, machine.dead_links)):
+            mine.clear()
+            mine.update(new)
+        wnets[:] = g.nets
+        wcons[:] = constraints
+        pname, pfn, pkw = self.placer(t, None)
+        self.seed_globals(t)
+        ner = rig_module("rig.place_and_route.route.ner")
+        alloc = rig_module("rig.place_and_route.allocate.greedy")
+        out = []
+        r = self.guarded("place[%s]" % pname, pfn, (wvr, wnets, wm, wcons),
+                         pkw, [wvr, wnets, wm, wcons])
+        out.append(r)
+        if r[0] == "ok":
+            placements = r[1]
+            r = self.guarded("allocate", alloc.allocate,
+                             (wvr, wnets, wm, wcons, placements), {},
+                             [wvr, wnets, wm, wcons, placements])
+            out.append(r)
+        if r[0] == "ok" and t.draw(2):
+            allocations = r[1]
+            r = self.guarded("route", ner.route,
+                             (wvr, wnets, wm, wcons, placements, allocations),
+                             {}, [wvr, wnets, wm, wcons, placements,
+                                  allocations])
+            out.append(r)
+            if r[0] == "ok":
+                out.append(self.guarded(
+                    "routing_tree_to_tables", self.rt.routing_tree_to_tables,
+                    (r[1], wkeys), {}, [r[1], wkeys]))
+        return "reuse[%s]" % pname, self.norm(out)
 
     def call_covering(self, t):
         """Minimisers on small dense tables (few key bits, few routes), where
